@@ -44,7 +44,7 @@ Add(k, p) ==
     /\ cp' = AddPoint(cp, k, p)
     /\ n' = IF MaxOps = 0 THEN 0 ELSE n + 1
     /\ (Emit => PrintT("TRANS " \o ToJson(
-            [pre |-> cp, k |-> k, p |-> p, post |-> cp',
+            [pre |-> cp, k |-> k, p |-> p, post |-> cp', postw |-> AddPointW(cp, k, p),
              red |-> Redundant(cp, k, p),
              look |-> [k2 \in Kinds |-> [i \in 1..(MaxT - MinT + 3) |-> LookupIdx(cp', k2, MinT - 2 + i)]],
              probe0 |-> MinT - 1])))
